@@ -77,9 +77,12 @@ func (w *Waiter) Next() GenericDataType {
 
 	for {
 		sets := atomic.LoadUint64(&w.sets)
+		// Look at the context before polling: everything set before the
+		// cancellation must still be returned.
+		done := w.isDone()
 		data, ok := w.Diode.TryNext()
 		if !ok {
-			if w.isDone() {
+			if done {
 				return nil
 			}
 
